@@ -584,7 +584,7 @@ fn corpus_sweep(profile: Profile, n: usize, sh: &util::Shard) -> Report {
 
 pub fn run(ctx: &Ctx) -> i32 {
     let mut total = Report::new();
-    let cfg = util::ForkCfg { threads: ctx.threads, mem_bytes: 4 << 30, case_timeout_s: 60, died_signature: "C15/abort".into() };
+    let cfg = util::ForkCfg { threads: ctx.threads, mem_bytes: 4 << 30, case_timeout_s: 60, died_signature: "C15/abort".into(), resource_is_violation: false };
     let styles = [("minimal", syntax::MINIMAL), ("full", syntax::FULL), ("noisy", syntax::NOISY)];
     // (1) operator trees
     let mut trees = Vec::new();
